@@ -649,6 +649,19 @@ impl Bank {
         None
     }
 
+    /// Present some accounts of the bank as Pinocchio `AccountInfo`s (loader input format) to a closure.
+    pub fn with_pino_accounts<R>(&self, keys: &[Pubkey], f: impl FnOnce(&[pinocchio::account_info::AccountInfo]) -> R) -> R {
+        init();
+        let ix = Instruction { program_id: whirlpool::ID, accounts: keys.iter().map(|k| solana_program::instruction::AccountMeta::new(*k, false)).collect(), data: vec![] };
+        let mut ser = self.serialize(&ix);
+        let p = ser.store.as_mut_ptr() as *mut u8;
+        const UNINIT: core::mem::MaybeUninit<pinocchio::account_info::AccountInfo> = core::mem::MaybeUninit::uninit();
+        let mut accounts = [UNINIT; 64];
+        let (_pid, count, _data) = unsafe { pinocchio::entrypoint::deserialize::<64>(p, &mut accounts) };
+        let parsed = unsafe { core::slice::from_raw_parts(accounts.as_ptr() as *const pinocchio::account_info::AccountInfo, count) };
+        f(parsed)
+    }
+
     pub fn fund(&mut self, k: Pubkey, lamports: u64) {
         self.accts.insert(k, Acct { lamports, data: vec![], owner: system_program::ID, executable: false });
     }
